@@ -34,6 +34,7 @@ func runC07(c *Ctx) {
 	c07ASTImmutable(c)
 	c07NoGlobalWrites(c)
 	c07CacheKey(c)
+	c07ConfigImmutable(c)
 }
 
 func isZeroValue(v ssa.Value) bool {
@@ -290,6 +291,12 @@ func c07NoGlobalWrites(c *Ctx) {
 							if g, bad := mut[callee]; bad {
 								hits = append(hits, shortFn(topFn(fn))+"→"+shortFn(callee)+"|"+c.ipos(x)+"|gqlparser's package-level "+g)
 							}
+							// a mutating method of a package-level sync.Map (a process-wide cache filled while serving requests)
+							if isSyncMapMutator(callee) && len(x.Common().Args) > 0 {
+								if g := globalRoot(x.Common().Args[0]); g != nil && g.Pkg != nil && pipeline.InModule(g.Pkg.Pkg.Path()) {
+									hits = append(hits, shortFn(topFn(fn))+"/syncmap:"+g.Pkg.Pkg.Name()+"."+g.Name()+"|"+c.ipos(x)+"|gqlgen's package-level sync.Map "+g.Name())
+								}
+							}
 						}
 					}
 				}
@@ -441,4 +448,46 @@ func (c *Ctx) retains(v ssa.Value, depth int, seen map[ssa.Value]bool) string {
 		}
 	}
 	return ""
+}
+
+
+func isSyncMapMutator(f *ssa.Function) bool {
+	switch f.String() {
+	case "(*sync.Map).Store", "(*sync.Map).LoadOrStore", "(*sync.Map).LoadAndDelete", "(*sync.Map).Delete", "(*sync.Map).Swap",
+		"(*sync.Map).CompareAndSwap", "(*sync.Map).CompareAndDelete", "(*sync.Map).Clear":
+		return true
+	}
+	return false
+}
+
+// globalWritesIn: the package-level writes (stores, map updates, sync.Map mutators on module globals) made by the functions of
+// one package, init functions excluded.
+func (c *Ctx) globalWritesIn(pkg string) [][2]string {
+	var out [][2]string
+	for _, fn := range c.moduleFuncs(func(p string) bool { return p == pkg }) {
+		if topFn(fn).Name() == "init" || strings.HasPrefix(topFn(fn).Name(), "init#") {
+			continue
+		}
+		for _, b := range fn.Blocks {
+			for _, in := range b.Instrs {
+				switch x := in.(type) {
+				case *ssa.Store:
+					if g := globalRoot(x.Addr); g != nil && g.Pkg != nil && pipeline.InModule(g.Pkg.Pkg.Path()) {
+						out = append(out, [2]string{shortFn(topFn(fn)) + "/store:" + g.Name(), c.ipos(x)})
+					}
+				case *ssa.MapUpdate:
+					if g := globalRoot(x.Map); g != nil && g.Pkg != nil && pipeline.InModule(g.Pkg.Pkg.Path()) {
+						out = append(out, [2]string{shortFn(topFn(fn)) + "/mapstore:" + g.Name(), c.ipos(x)})
+					}
+				case ssa.CallInstruction:
+					if callee := x.Common().StaticCallee(); callee != nil && isSyncMapMutator(callee) && len(x.Common().Args) > 0 {
+						if g := globalRoot(x.Common().Args[0]); g != nil && g.Pkg != nil && pipeline.InModule(g.Pkg.Pkg.Path()) {
+							out = append(out, [2]string{shortFn(topFn(fn)) + "/syncmap:" + g.Name(), c.ipos(x)})
+						}
+					}
+				}
+			}
+		}
+	}
+	return out
 }
